@@ -147,3 +147,28 @@ def pmap(fn: Callable[[Any], Any], tasks: Iterable[Any], procs: int | None = Non
         if status != "ok":
             raise HarnessError(f"worker {status} on task {task!r}")
         yield task, res
+
+
+def run_batches_bisect(fn: Callable[[Any], Any], batches: list, on_result: Callable[[Any], None],
+                       on_item_timeout: Callable[[Any, str], None], kill_s: float, per_item_s: float = 0.02,
+                       min_kill_s: float = 3.0) -> None:
+    """batches: list of (tag, [items]).  fn((tag, items)) -> result.  A batch that does not return within
+    kill_s + per_item_s*len(items) is killed and split in halves (with a halved kill time, never below
+    min_kill_s) until the single offending item is isolated; on_item_timeout((tag, item), status) is called
+    for it.  Nothing is dropped silently."""
+    pending = list(batches)
+    while pending:
+        retry = []
+        for task, status, res in kmap(fn, pending, timeout_s=lambda b, k=kill_s: k + per_item_s * len(b[1])):
+            if status == "ok":
+                on_result(res)
+                continue
+            tag, items = task
+            if len(items) == 1:
+                on_item_timeout((tag, items[0]), status)
+            else:
+                half = len(items) // 2
+                retry.append((tag, items[:half]))
+                retry.append((tag, items[half:]))
+        pending = retry
+        kill_s = max(min_kill_s, kill_s / 2)
